@@ -13,7 +13,7 @@ UNITS = {
     'pool': {'template': 'units/pool/unit.rs', 'serves': ['C04', 'C08', 'C18', 'C03', 'C10', 'C06'], 'min_verified': 125},
     'blockdata': {'template': 'units/blockdata/unit.rs', 'serves': ['C13', 'C10', 'C12', 'C14'], 'min_verified': 66},
     'routing': {'template': 'units/routing/unit.rs', 'serves': ['C16'], 'min_verified': 65},
-    'votor': {'template': 'units/votor/unit.rs', 'serves': ['C05', 'C18'], 'min_verified': 60},
+    'votor': {'template': 'units/votor/unit.rs', 'serves': ['C05', 'C18'], 'min_verified': 74},
     'parent_ready': {'template': 'units/parent_ready/unit.rs', 'serves': ['C07'], 'min_verified': 64},
     'repair': {'template': 'units/repair/unit.rs', 'serves': ['C14', 'C15', 'C10'], 'min_verified': 32},
     'producer': {'template': 'units/producer/unit.rs', 'serves': ['C10'], 'min_verified': 24},
@@ -28,7 +28,7 @@ UNITS = {
     'shred_fill': {'template': 'units/shred_fill/unit.rs', 'serves': ['C13', 'C12', 'C11'], 'min_verified': 36},
     'lthash': {'template': 'units/lthash/unit.rs', 'serves': ['C20'], 'min_verified': 19},
     'vshreds': {'template': 'units/vshreds/unit.rs', 'serves': ['C11', 'C10'], 'min_verified': 10},
-    'slot_state': {'template': 'units/slot_state/unit.rs', 'serves': ['C03', 'C04', 'C06'], 'min_verified': 111},
+    'slot_state': {'template': 'units/slot_state/unit.rs', 'serves': ['C03', 'C04', 'C06', 'C05'], 'min_verified': 111},
 }
 
 # property -> what decides it
